@@ -29,6 +29,7 @@ type genState struct {
 	cands    []Payload // candidate batch configs
 	eonGuess uint64
 	aim      *Impl
+	script   []*TxSpec // scripted transactions aimed at one sentence of a property; served first
 	aimKeypers []common.Address
 	valKeys  [][]byte
 	encKeys  [][]byte
@@ -213,13 +214,13 @@ func (g *genState) payload() Payload {
 				g.maxIndex = last.KeyperConfigIndex
 			}
 		}
-		if len(g.cands) == 0 || stale || (len(g.cands) < 3 && r.Chance(12)) || r.Chance(4) {
+		if len(g.cands) == 0 || stale || (len(g.cands) < 3 && r.Chance(25)) || r.Chance(4) {
 			g.cands = append(g.cands, g.newCandidate())
 			if len(g.cands) > 4 {
 				g.cands = g.cands[1:]
 			}
 		}
-		if r.Chance(70) {
+		if r.Chance(50) {
 			return g.cands[len(g.cands)-1]
 		}
 		return g.cands[r.Intn(len(g.cands))]
@@ -301,8 +302,86 @@ func (g *genState) payload() Payload {
 	}
 }
 
+func (g *genState) signerOf(a common.Address) int {
+	for i, x := range g.u.Addrs {
+		if x == a {
+			return i
+		}
+	}
+	return 0
+}
+
+// scriptSplitVote: votes split over two candidate configurations with increasing indices; the one
+// with the lower index is accepted first, then the round for the other one goes on.
+func (g *genState) scriptSplitVote() {
+	if g.aim == nil {
+		return
+	}
+	last := g.aim.App.Configs[len(g.aim.App.Configs)-1]
+	n := len(last.Keypers)
+	if n < 2 {
+		return
+	}
+	r := g.r
+	mk := func(idx uint64) Payload {
+		nk := 1 + r.Intn(len(g.u.Addrs))
+		return Payload{Kind: "bc", A: last.ActivationBlockNumber + uint64(r.Intn(3)), T: uint64(1 + r.Intn(nk)), I: idx, Addrs: g.distinctAddrs(nk)}
+	}
+	if g.maxIndex < last.KeyperConfigIndex {
+		g.maxIndex = last.KeyperConfigIndex
+	}
+	x, y := mk(g.maxIndex+1), mk(g.maxIndex+2)
+	g.maxIndex += 2
+	g.cands = append(g.cands, x, y)
+	vote := func(k common.Address, p Payload) {
+		g.script = append(g.script, &TxSpec{Signer: g.signerOf(k), Chain: g.chain, Nonce: g.freshNonce(), P: p})
+	}
+	perm := r.Perm(n)
+	early := 1 + r.Intn(n) // how many vote for y first
+	if early > n-1 {
+		early = n - 1
+	}
+	for _, i := range perm[:early] {
+		vote(last.Keypers[i], y)
+	}
+	for _, i := range perm[early:] {
+		vote(last.Keypers[i], x)
+	}
+	for _, i := range perm[:early] { // second votes of the early voters (refused: one vote per round)
+		if r.Chance(50) {
+			vote(last.Keypers[i], x)
+		}
+	}
+	// the next round: everybody in the universe tries y
+	for _, i := range r.Perm(len(g.u.Addrs)) {
+		vote(g.u.Addrs[i], y)
+	}
+}
+
+// scriptRestart: failure reports for the newest or an older eon by the keypers of its configuration
+func (g *genState) scriptRestart() {
+	if g.aim == nil || len(g.aim.App.DKGMap) == 0 {
+		return
+	}
+	eons := []uint64{}
+	for e := range g.aim.App.DKGMap {
+		eons = append(eons, e)
+	}
+	sort.Slice(eons, func(i, j int) bool { return eons[i] < eons[j] })
+	e := eons[g.r.Intn(len(eons))]
+	for _, k := range g.aim.App.DKGMap[e].Config.Keypers {
+		g.script = append(g.script, &TxSpec{Signer: g.signerOf(k), Chain: g.chain, Nonce: g.freshNonce(),
+			P: Payload{Kind: "dr", A: e, Flag: g.r.Chance(15)}})
+	}
+}
+
 func (g *genState) tx() *TxSpec {
 	r := g.r
+	if len(g.script) > 0 && r.Chance(85) {
+		t := g.script[0]
+		g.script = g.script[1:]
+		return t
+	}
 	if r.Chance(4) {
 		switch r.Intn(4) {
 		case 0:
@@ -376,7 +455,18 @@ func GenHistory(r *hx.Rand, u *Universe, p GenParams) []*Op {
 			}
 		}
 		ops = append(ops, &Op{Kind: "begin", Height: h})
+		if len(g.script) == 0 {
+			switch k := r.Intn(100); {
+			case k < 12:
+				g.scriptSplitVote()
+			case k < 20:
+				g.scriptRestart()
+			}
+		}
 		ntx := r.Intn(p.TxPerBlock + 1)
+		if len(g.script) > 0 {
+			ntx = p.TxPerBlock
+		}
 		for i := 0; i < ntx; i++ {
 			t := g.tx()
 			if p.Checks && r.Chance(50) {
